@@ -6,6 +6,7 @@ Core Lean only.
 -/
 import Gribi.Drv.RibDrv
 import Gribi.Model.Server
+import Gribi.Drv.ChkDrv
 namespace Gribi.Drv
 open Gribi
 
@@ -506,6 +507,7 @@ def srvLine (st : SrvSt) (ts : List Tok) : SrvSt :=
     else if c = "hang" then
       let st := bump st
       (st.monfail "c10" "the server did not answer within the watchdog (hang)").diff "hang" "the implementation hung"
+    else if c.startsWith "chk." then { st with rs := chkLine st.rs ts }
     else
       -- RIB-level observation lines and everything else
       { st with rs := ribLine st.rs ts }
